@@ -110,60 +110,63 @@ func checkC06(p *Prog, r *Report) {
 	}
 	// callers publish one add event per element
 	nAddPub := 0
-	for _, fn := range p.RepoFns("spine") {
-		var add *ssa.Call
-		forEachCall(fn, func(site ssa.CallInstruction) {
-			if c, ok := site.(*ssa.Call); ok && calleeIsIfaceMethod(&c.Call, dri, "AddEntityAndFeatures") {
-				add = c
-			}
-		})
-		if add == nil {
-			continue
-		}
-		base := FnName(fn)
-		found := false
-		forEachCall(fn, func(site ssa.CallInstruction) {
-			c, ok := site.(*ssa.Call)
-			if !ok || !staticCallee(&c.Call, repoMod+"/spine", "events", "Publish") {
+	for _, fn0 := range p.RepoFns("spine") {
+		fn := fn0
+		p.InScope(fn, func() {
+			var add *ssa.Call
+			forEachCallOwn(fn, func(site ssa.CallInstruction) {
+				if c, ok := site.(*ssa.Call); ok && calleeIsIfaceMethod(&c.Call, dri, "AddEntityAndFeatures") {
+					add = c
+				}
+			})
+			if add == nil {
 				return
 			}
-			ev := eventFields(c.Call.Args[len(c.Call.Args)-1])
-			ct, _ := constInt(ev["ChangeType"])
-			et, _ := constInt(ev["EventType"])
-			wantC, _ := constOf(p, "api", "ElementChangeAdd")
-			wantE, _ := constOf(p, "api", "EventTypeEntityChange")
-			if ct != wantC || et != wantE {
-				return
-			}
-			found = true
-			nAddPub++
-			t := forwardTaint(add)
-			okElem := ev["Entity"] != nil && t[ev["Entity"]] && cyclic(c.Block())
-			extra := 0
-			for _, g := range Guards(c.Block()) {
-				if bo, ok := g.Cond.(*ssa.BinOp); ok {
-					if _, isLen := bo.Y.(*ssa.Call); isLen {
-						continue
+			base := FnName(fn)
+			found := false
+			forEachCall(fn, func(site ssa.CallInstruction) {
+				c, ok := site.(*ssa.Call)
+				if !ok || !staticCallee(&c.Call, repoMod+"/spine", "events", "Publish") {
+					return
+				}
+				ev := eventFields(c.Call.Args[len(c.Call.Args)-1])
+				ct, _ := constInt(ev["ChangeType"])
+				et, _ := constInt(ev["EventType"])
+				wantC, _ := constOf(p, "api", "ElementChangeAdd")
+				wantE, _ := constOf(p, "api", "EventTypeEntityChange")
+				if ct != wantC || et != wantE {
+					return
+				}
+				found = true
+				nAddPub++
+				t := forwardTaint(add)
+				okElem := ev["Entity"] != nil && (t[ev["Entity"]] || t[baseValue(ev["Entity"])]) && cyclic(c.Block())
+				extra := 0
+				for _, g := range Guards(c.Block()) {
+					if bo, ok := g.Cond.(*ssa.BinOp); ok {
+						if _, isLen := bo.Y.(*ssa.Call); isLen {
+							continue
+						}
+					}
+					shared := false
+					for _, g2 := range Guards(add.Block()) {
+						if g2.Cond == g.Cond {
+							shared = true
+						}
+					}
+					if x, _, isNil := nilTest(g.Cond); isNil && t[x] {
+						shared = true // the error test of the add call
+					}
+					if !shared {
+						extra++
 					}
 				}
-				shared := false
-				for _, g2 := range Guards(add.Block()) {
-					if g2.Cond == g.Cond {
-						shared = true
-					}
-				}
-				if x, _, isNil := nilTest(g.Cond); isNil && t[x] {
-					shared = true // the error test of the add call
-				}
-				if !shared {
-					extra++
-				}
+				r.Check("R3", base+"|add-events", okElem && extra == 0, p.InstrPos(c), fmt.Sprintf("one publication per element of the returned list: %v; %d extra conditions", okElem, extra))
+			})
+			if !found {
+				r.Fail("R3", base+"|add-events", p.InstrPos(add), "no entity-added publication for the entities created by this call")
 			}
-			r.Check("R3", base+"|add-events", okElem && extra == 0, p.InstrPos(c), fmt.Sprintf("one publication per element of the returned list: %v; %d extra conditions", okElem, extra))
 		})
-		if !found {
-			r.Fail("R3", base+"|add-events", p.InstrPos(add), "no entity-added publication for the entities created by this call")
-		}
 	}
 	r.Floor("R3", "entity-added publications", nAddPub, 2)
 
@@ -251,49 +254,53 @@ func c06Rebuild(p *Prog, r *Report) {
 		return
 	}
 	n := 0
-	for _, fn := range p.RepoFns("spine") {
+	for _, fn0 := range p.ScopeRoots("spine") {
+		fn := fn0
 		idx := 0
-		forEachCall(fn, func(site ssa.CallInstruction) {
-			c, ok := site.(*ssa.Call)
-			if !ok || !calleeIsIfaceMethod(&c.Call, eri, "AddFeature") {
-				return
-			}
-			recv := callRecv(&c.Call)
-			if recv == nil {
-				return
-			}
-			// only receivers that are remote entities
-			if !implementsIface(recv.Type(), eri) {
-				if _, isI := recv.Type().Underlying().(*types.Interface); !isI || !types.Identical(recv.Type().Underlying(), eri) {
+		p.InScope(fn, func() {
+			forEachCall(fn, func(site ssa.CallInstruction) {
+				c, ok := site.(*ssa.Call)
+				if !ok || !calleeIsIfaceMethod(&c.Call, eri, "AddFeature") {
 					return
 				}
-			}
-			idx++
-			n++
-			key := fmt.Sprintf("%s|AddFeature#%d", FnName(fn), idx)
-			// fresh: every source of the receiver is a constructor call in this function
-			fresh := true
-			srcs := p.Sources(recv, false)
-			for _, s := range srcs {
-				if s.Kind != "call" || !(strings.Contains(s.Desc, "addNewEntity") || strings.Contains(s.Desc, "NewEntityRemote")) {
-					fresh = false
-				}
-			}
-			if fresh && len(srcs) > 0 {
-				r.Pass("R5", key, p.InstrPos(c), "features are added to an entity created in this function")
-				return
-			}
-			wiped := false
-			forEachCall(fn, func(s2 ssa.CallInstruction) {
-				w, ok := s2.(*ssa.Call)
-				if !ok || !calleeIsIfaceMethod(&w.Call, eri, "RemoveAllFeatures") {
+				recv := callRecv(&c.Call)
+				if recv == nil {
 					return
 				}
-				if callRecv(&w.Call) == recv && instrDominates(w, c) {
-					wiped = true
+				recv = substParam(recv)
+				// only receivers that are remote entities
+				if !implementsIface(recv.Type(), eri) {
+					if _, isI := recv.Type().Underlying().(*types.Interface); !isI || !types.Identical(recv.Type().Underlying(), eri) {
+						return
+					}
 				}
+				idx++
+				n++
+				key := fmt.Sprintf("%s|AddFeature#%d", FnName(fn), idx)
+				// fresh: every source of the receiver is a constructor call in this function
+				fresh := true
+				srcs := p.Sources(recv, false)
+				for _, s := range srcs {
+					if s.Kind != "call" || !(strings.Contains(s.Desc, "addNewEntity") || strings.Contains(s.Desc, "NewEntityRemote")) {
+						fresh = false
+					}
+				}
+				if fresh && len(srcs) > 0 {
+					r.Pass("R5", key, p.InstrPos(c), "features are added to an entity created in this function")
+					return
+				}
+				wiped := false
+				forEachCall(fn, func(s2 ssa.CallInstruction) {
+					w, ok := s2.(*ssa.Call)
+					if !ok || !calleeIsIfaceMethod(&w.Call, eri, "RemoveAllFeatures") {
+						return
+					}
+					if substParam(callRecv(&w.Call)) == recv && instrDominates(w, c) {
+						wiped = true
+					}
+				})
+				r.Check("R5", key, wiped, p.InstrPos(c), "features are added to an existing remote entity ("+Path(recv)+"); RemoveAllFeatures on the same entity dominates the addition: "+fmt.Sprint(wiped))
 			})
-			r.Check("R5", key, wiped, p.InstrPos(c), "features are added to an existing remote entity ("+Path(recv)+"); RemoveAllFeatures on the same entity dominates the addition: "+fmt.Sprint(wiped))
 		})
 	}
 	r.Floor("R5", "AddFeature calls on remote entities", n, 1)
@@ -529,4 +536,44 @@ func elementRoot(v ssa.Value) ssa.Instruction {
 		}
 	}
 	return nil
+}
+
+// baseValue walks from an element or field of a value down to the value itself and
+// through the parameters of extracted helpers (in scope) to the caller's argument.
+func baseValue(v ssa.Value) ssa.Value {
+	for d := 0; d < 16 && v != nil; d++ {
+		switch x := v.(type) {
+		case *ssa.UnOp:
+			v = x.X
+		case *ssa.IndexAddr:
+			v = x.X
+		case *ssa.Index:
+			v = x.X
+		case *ssa.FieldAddr:
+			v = x.X
+		case *ssa.Field:
+			v = x.X
+		case *ssa.MakeInterface:
+			v = x.X
+		case *ssa.ChangeInterface:
+			v = x.X
+		case *ssa.Extract:
+			v = x.Tuple
+		case *ssa.Alloc:
+			if s := singleStore(x); s != nil {
+				v = s
+			} else {
+				return v
+			}
+		case *ssa.Parameter:
+			s := substParam(x)
+			if s == ssa.Value(x) {
+				return v
+			}
+			v = s
+		default:
+			return v
+		}
+	}
+	return v
 }
